@@ -108,8 +108,32 @@ def new_loop(start: float = 0.0) -> asyncio.AbstractEventLoop:
         q = math.ceil(when * 1_000_000 - 1e-3) / 1_000_000
         return orig_call_at(q, callback, *args, context=context)
     loop.call_at = call_at  # type: ignore[method-assign]
+
+    # Zero-time livelock guard. A real clock advances while code runs; the virtual one stands still until the loop is idle.
+    # Code that re-arms itself on sub-microsecond float noise ("still 4e-16 s to wait") spins forever at one virtual instant,
+    # yielding to the loop each time. After many loop iterations without progress of time, nudge the clock by 1us.
+    orig_run_once = loop._run_once          # type: ignore[attr-defined]
+    state = {'t': None, 'n': 0}
+
+    def _run_once() -> None:
+        now = loop._LoopTimeEventLoop__now      # type: ignore[attr-defined]
+        if now == state['t']:
+            state['n'] += 1
+            if state['n'] > LIVELOCK_ITERATIONS:
+                loop._LoopTimeEventLoop__now = now + 1      # type: ignore[attr-defined]
+                NUDGES['loop'] += 1
+                state['n'] = 0
+        else:
+            state['t'] = now
+            state['n'] = 0
+        orig_run_once()
+    loop._run_once = _run_once              # type: ignore[attr-defined]
     asyncio.set_event_loop(loop)
     return loop
+
+
+LIVELOCK_ITERATIONS = 5000
+NUDGES = {'loop': 0}
 
 
 def iso(t: float) -> str:
